@@ -56,6 +56,13 @@ def make_case(rng: random.Random, index: int) -> Dict[str, Any]:
         hists = shaped_input(rng, "fully-sold+income-only")
     else:
         hists = cli_histories(rng, rng.randint(1, 3), cli_profile(n_exchanges=rng.choice((2, 3)), n_holders=2, p_intra=0.3, max_events=rng.choice((8, 16)), min_events=4, price_style="small", mixed_tz=rng.random() < 0.35))
+    if index % 10 == 3:
+        # one asset's only funded account is emptied by a disposal with an understated exchange-supplied total: nothing of it is
+        # open, part of a lot is unsold all the same; the other assets' figures (weights above all) must not notice
+        from rpv import families
+
+        hists = dict(hists)
+        hists["CCC" if "CCC" not in hists else "DDD"] = families.understated_total_empties_account(rng, "CCC" if "CCC" not in hists else "DDD")
     country = rng.choice(("us", "us", "generic", "es", "ie", "jp"))
     language = rng.choice(COUNTRY_LANGUAGES[country])
     method = rng.choice(COUNTRY_METHODS[country])
